@@ -263,12 +263,15 @@ def _worker(args):
 
 
 def load_known(pid):
-    path = os.path.join(VERIF, "known_findings.json")
-    if not os.path.exists(path):
-        return []
-    with open(path) as f:
-        data = json.load(f)
-    return [e for e in data.get("findings", []) if e.get("property") == pid]
+    out = []
+    paths = [os.path.join(VERIF, "known_findings.json")] + sorted(glob.glob(os.path.join(VERIF, "known_findings.d", "*.json")))
+    for path in paths:
+        if not os.path.exists(path):
+            continue
+        with open(path) as f:
+            data = json.load(f)
+        out.extend(e for e in data.get("findings", []) if e.get("property") == pid)
+    return out
 
 
 def replay_files(pid):
